@@ -35,6 +35,7 @@ def run(ctx):
         ctx.guard("C04", "blocksize", lambda: parser.block_size_field(ctx, prog))
         ctx.guard("C04", "forms", lambda: parser.entry_forms(ctx, prog))
         ctx.guard("C04", "endclass", lambda: parser.end_classification(ctx, prog))
+        ctx.guard("C04", "capacity", lambda: parser.capacity_after_collapse(ctx, prog))
         ctx.guard("C04", "outcomes", lambda: parser.driver_outcomes(ctx, prog))
         ctx.guard("C04", "runlimit", lambda: normal.run_limit_agreement(ctx, prog))
         ctx.guard("C04", "tables", lambda: data.base64_tables(ctx, prog))
